@@ -125,9 +125,14 @@ impl<'tcx> Cx<'tcx> {
         let sm = self.tcx.sess.source_map();
         // macro name (outermost expansion) if any
         let mut mac = J::Null;
+        let mut outer = J::Null;
         if sp.from_expansion() {
             let ed = sp.ctxt().outer_expn_data();
             mac = s(format!("{:?}", ed.kind));
+            // outermost (user-written) macro invocation of the expansion chain
+            if let Some(last) = sp.macro_backtrace().last() {
+                outer = s(format!("{:?}", last.kind));
+            }
         }
         let root = sp.source_callsite();
         let lo = sm.lookup_char_pos(root.lo());
@@ -140,7 +145,7 @@ impl<'tcx> Cx<'tcx> {
             self.file_ix.insert(fname, i);
             i
         };
-        J::Arr(vec![n(fi), n(lo.line), n(lo.col.0 + 1), mac])
+        J::Arr(vec![n(fi), n(lo.line), n(lo.col.0 + 1), mac, outer])
     }
 }
 
